@@ -155,12 +155,15 @@ def insertSorted (v : RV) : List RV → List RV
 
 /-- `create_read_from_group`: `none` = group skipped (no primary, or more than two primaries);
 otherwise (reference_start, variants sorted by position) of the union read -/
-def groupRead (threshold : Int) (group : List AlnRead) : Option (Int × List RV) :=
+def groupRead (repaired : Bool) (threshold : Int) (group : List AlnRead) : Option (Int × List RV) :=
   match lastPrimary group with
   | none => none
   | some p =>
     if (group.filter (!·.supplementary)).length > 2 then none else
-    let used := group.filter fun r => r.reverse == p.reverse && decide (alnDistance p r ≤ threshold)
+    -- as the code is, the strand/distance filter also hits the other mate of a pair (defect F12 of C06, whose
+    -- repair applies it to supplementary alignments only): `repaired` selects the behaviour after fixes/F12.patch
+    let used := group.filter fun r =>
+      (repaired && !r.supplementary) || (r.reverse == p.reverse && decide (alnDistance p r ≤ threshold))
     let start := used.foldl (fun s r => min s r.refStart) p.refStart
     let (vars, skip) := used.foldl (fun (st : List RV × List Nat) r => mergeVariants st.1 st.2 r.variants) ([], [])
     let kept := vars.filter fun v => !skip.contains v.pos
@@ -303,7 +306,7 @@ given, one `fetch` each, no unmapped tail.  An alignment overlapping two regions
 def runRegionsOrig {α} (sel : List (Chrom α × List (Int × Option Int))) : List (Aln α) :=
   sel.flatMap fun (c, regions) => regions.flatMap fun r => (c.alns.filter (overlaps r)).map (tagAln c.ctx)
 
-/-- `--regions` after the repair fixes/F12: an alignment is written with the first region it overlaps -/
+/-- `--regions` after the repair fixes/F17: an alignment is written with the first region it overlaps -/
 def fetchOnce {α} (alns : List (Aln α)) : List (Int × Option Int) → List (Int × Option Int) → List (Aln α)
   | _, [] => []
   | earlier, r :: rest =>
